@@ -27,7 +27,18 @@ def apply_ops(path, ops):
                     res.append('stop')
                 continue
             if k == 't':
-                r.filter_in_place(set(MessageType(t, raise_on_unrecognized=False) for t in op[1]))
+                from fusion_engine_client.messages import message_type_to_class
+                enums = [MessageType(t, raise_on_unrecognized=False) for t in op[1]]
+                classes = [message_type_to_class.get(e) for e in enums]
+                style = op[2] if len(op) > 2 else 0
+                if style == 1 and all(c is not None for c in classes):
+                    r.filter_in_place(classes if len(classes) != 1 else classes[0])      # payload classes
+                elif style == 2:
+                    r.filter_in_place(tuple(enums) if len(enums) != 1 else enums[0])      # tuple / a single MessageType
+                else:
+                    r.filter_in_place(set(enums))
+            elif k == 'F':                                                          # slice of absolute P1 times (floats)
+                r.filter_in_place(slice(op[1], op[2]))
             elif k == 'T':
                 kind, s, e, t0 = op[1]
                 tr = TimeRange(start=s, end=e, absolute=(kind == 'a'), p1_t0=None if t0 is None else Timestamp(t0))
@@ -67,6 +78,9 @@ def op_text(op):
         kind, s, e, t0 = op[1]
         tr = TimeRange(start=s, end=e, absolute=(kind == 'a'), p1_t0=None if t0 is None else Timestamp(t0))
         return 'T:' + rc.range_text(tr, sep='/')
+    if k == 'F':
+        f = lambda x: 'n' if x is None else str(int(round(x * rc.NS)))
+        return 'T:a/%s/%s/n' % (f(op[1]), f(op[2]))
     if k == 's':
         return 's:%d:%d' % (op[1], op[2])
     if k == 'k':
@@ -79,9 +93,17 @@ def gen_op(rng, msgs):
     types = sorted(set(m['type'] for m in msgs)) or [10000]
     ts = [m['timeNs'] / rc.NS for m in msgs if m['timeNs'] is not None]
     lo, hi = (min(ts), max(ts)) if ts else (1.0, 4.0)
-    k = rng.choice('rrrrtTsucwke')
+    k = rng.choice('rrrrtTFsucwke')
     if k == 't':
-        return ('t', rng.choice([[rng.choice(types)], rng.sample(types, min(2, len(types))), [424]]))
+        return ('t', rng.choice([[rng.choice(types)], rng.sample(types, min(2, len(types))), [424]]), rng.randrange(3))
+    if k == 'F':
+        grid = [None, 0.0, lo, lo + 0.25, lo + 1.0, (lo + hi) / 2 // 0.25 * 0.25, hi, hi + 2]
+        a, b = rng.choice(grid), rng.choice(grid)
+        if a is None and b is None:
+            a = lo
+        if a is not None and b is not None and b < a:
+            a, b = b, a
+        return ('F', a, b)
     if k == 'T':
         kind = rng.choice(['a', 'r', 'r'])
         base = lo if kind == 'a' else 0.0
